@@ -10,22 +10,30 @@ image only.  mount (update_accessed_date on or off), create_file(name) under a s
 write / read / seek / truncate calls each under its own clock value (`clock y m d h mi s ms`, so that the model's clock
 argument IS the library's time provider), then flush and/or drop, unmount.  The model runner (mode csess) keeps the model's
 image and the device image (the formatted image + the library's logged device writes) and compares the WHOLE images after
-create, after EVERY call, after the flush / drop (bit 0 of the status byte, the volume dirty flag, masked while mounted) and
-exactly after unmount; the final device dump (`pages`) is compared page by page with the model's image as well.  Outcomes,
+create, after EVERY call, after the flush / drop and after unmount - EXACTLY, the status byte included: the model runs the
+MOUNTED operations of Model/VolStatus.v (the dirty flag is written when the code writes it - C12_vol_create, C12_vol_file_step,
+C12_vol_remove_file, C12_vol_unmount_restores - and is no longer masked); the final device dump (`pages`) is compared page by page with the model's image as well.  Outcomes,
 positions and sizes are compared after every call.
 Directly on the implementation, independent of the model (the C04 clause itself): the library's own final dump is decoded by
 Spec/Abs.abs + Spec/Wf.wf_issues: exactly one root node, the file `name` whose content is the byte array the session observed
 (tracked from the library's own return values), size field = its length, no issue, free clusters = total - ceil(len/cluster);
 a second mount reads the same bytes back.  Before the first flush the device is decoded too: what it shows is what
 C03_session_deferred_writeback states (entry still size 0 / no cluster, the chain's clusters LOST, nothing else) - the recorded
-known-finding class deferred-entry-writeback; a deviation from that statement is reported as a broken correspondence."""
+known-finding class deferred-entry-writeback; a deviation from that statement is reported as a broken correspondence.
+Rounds (Model/VolRemove.v, C05_vol_remove_reclaims_all, C05_vol_cycles_keep_capacity): a session has 1-3 files, each written
+as above; in 3 of 5 cases the handle is dropped and the file REMOVED (root_dir().remove(name): free_cluster_chain on the FAT
+copies, then the deletion loop) - the whole device is compared with the model's image after the remove, and the DEVICE bytes
+are decoded (Spec/Abs + Spec/Wf, independent of the model): the removed entry is gone, every cluster of its chain is free again
+(free count = total - clusters of the files still there), nothing lost, no issue.  A later round on the same volume is a fill /
+delete cycle, or a remove beside other files with their own chains."""
 import hashlib
 import vlib, namelib
 from vlib import hexs
 from props import cvol_corr
 
-CORR = ("Model/VolSession.v sess_create / sess_step / vol_flush_entry (model csess; C04_session_flush_decodes, "
-        "C04_session_format_decodes, C03_session_deferred_writeback) vs src/dir.rs + src/file.rs + src/dir_entry.rs on the whole device image")
+CORR = ("Model/VolSession.v sess_create / sess_step / vol_flush_entry + Model/VolRemove.v vol_remove_file_root (model csess; "
+        "C04_session_flush_decodes, C04_session_format_decodes, C03_session_deferred_writeback, C05_vol_remove_reclaims_all, "
+        "C05_vol_cycles_keep_capacity) vs src/dir.rs + src/file.rs + src/dir_entry.rs + src/table.rs on the whole device image")
 
 CONFS = cvol_corr.CONFS
 NAMES = ["a.txt", "B", "file.txt", "File.TXT", "x" * 13, "y" * 14, "z" * 26, "thirteenchars.26charsxxxxx", "name.with.many.dots.ext",
@@ -46,11 +54,14 @@ def rand_clock(rng, prev=None):
             rng.choice([0, 0, 10 * rng.below(100), rng.below(1000)]))
 
 
-def gen_session(rng, conf, nops, geo):
+def gen_round(rng, nops, geo, used, handle):
     from props import c02 as c02mod
     bits, cs, total = geo
-    name = rng.choice(NAMES) if rng.chance(95, 100) else rng.choice(BAD)
-    acc = 1 if rng.chance(1, 3) else 0
+    while True:
+        name = rng.choice(NAMES) if rng.chance(95, 100) else rng.choice(BAD)
+        if name.lower() not in used:
+            break
+    used.add(name.lower())
     c0 = rand_clock(rng)
     how = rng.below(100)
     if how < 8:
@@ -66,31 +77,67 @@ def gen_session(rng, conf, nops, geo):
         c = rand_clock(rng, c)
         clocks.append(c)
     end = rng.choice(["flush", "drop", "flush+drop", "flush+drop"])
-    return {"conf": conf, "name": name, "acc": acc, "c0": c0, "ops": ops, "clocks": clocks, "end": end}
+    return {"name": name, "c0": c0, "ops": ops, "clocks": clocks, "end": end, "remove": False, "handle": handle}
+
+
+def gen_session(rng, conf, nops, geo):
+    """1-3 rounds of create_file ; calls ; flush / drop, each optionally followed by remove(name) of the file just written (the
+    handle dropped first): fill / delete cycles, and removes while other files with their own chains are on the volume"""
+    acc = 1 if rng.chance(1, 3) else 0
+    k = rng.below(100)
+    nr = 1 if k < 45 else (2 if k < 80 else 3)
+    used = set()
+    rounds = []
+    for i in range(nr):
+        r = gen_round(rng, nops if i == 0 else max(3, nops // 2), geo, used, 1 + i)
+        r["remove"] = rng.chance(3, 5)
+        rounds.append(r)
+    # the status byte the volume is mounted with: clean, dirty, io-error, reserved bits set by someone else (D11)
+    b0 = rng.choice([0, 0, 0, 0, 0, 1, 2, 3, 4, 0x84, 0xFC, 0xFF])
+    return {"conf": conf, "acc": acc, "rounds": rounds, "b0": b0, "name": rounds[0]["name"], "ops": rounds[0]["ops"], "end": rounds[0]["end"]}
 
 
 def build_script(s):
     label, dev, fmt, fill = s["conf"]
-    lines = ["dev %d %d" % (dev, fill), "wlog 0", "format " + fmt, "pages", "clock %d %d %d %d %d %d %d" % s["c0"], "wlog 1",
-             "mount 1 %d lossy" % s["acc"], "create_file 0 %s 1" % hexs(s["name"])]
-    m = {"p_format": 3, "i_create": 7, "ops": []}
-    for o, ck in zip(s["ops"], s["clocks"]):
-        lines.append("clock %d %d %d %d %d %d %d" % ck)
-        t = o.split(" ")
-        m["ops"].append(len(lines))
-        lines.append("%s 1" % t[0] + ("" if len(t) == 1 else " " + " ".join(t[1:])))
-        lines.append("seek 1 cur 0")
-    m["i_end"] = []
-    for e in s["end"].split("+"):
-        m["i_end"].append(len(lines))
-        lines.append("flush 1" if e == "flush" else "drop_file 1")
+    lines = ["dev %d %d" % (dev, fill), "wlog 0", "format " + fmt, "pages"]
+    if s["b0"]:
+        lines.append("poke 37 %02x" % s["b0"])
+    lines += ["wlog 1", "mount 1 %d lossy" % s["acc"]]
+    m = {"p_format": 3, "rounds": []}
+    for r in s["rounds"]:
+        h = r["handle"]
+        mr = {"ops": [], "i_end": [], "i_xdrop": None, "i_remove": None}
+        lines.append("clock %d %d %d %d %d %d %d" % r["c0"])
+        mr["i_create"] = len(lines)
+        lines.append("create_file 0 %s %d" % (hexs(r["name"]), h))
+        for o, ck in zip(r["ops"], r["clocks"]):
+            lines.append("clock %d %d %d %d %d %d %d" % ck)
+            t = o.split(" ")
+            mr["ops"].append(len(lines))
+            lines.append("%s %d" % (t[0], h) + ("" if len(t) == 1 else " " + " ".join(t[1:])))
+            lines.append("seek %d cur 0" % h)
+        for e in r["end"].split("+"):
+            mr["i_end"].append(len(lines))
+            lines.append("flush %d" % h if e == "flush" else "drop_file %d" % h)
+        if r["remove"]:
+            if "drop" not in r["end"]:
+                mr["i_xdrop"] = len(lines)
+                lines.append("drop_file %d" % h)
+            mr["i_remove"] = len(lines)
+            lines.append("remove 0 %s" % hexs(r["name"]))
+        m["rounds"].append(mr)
     m["i_unmount"] = len(lines)
     lines += ["unmount", "wlog 0", "pages"]
     m["p_final"] = len(lines) - 1
-    lines += ["mount 1 0 lossy", "open_file 0 %s 2" % hexs(s["name"]), "read_all 2 4000000", "drop_file 2", "list 0", "stats", "unmount"]
-    m["i_read"] = m["p_final"] + 3
-    m["i_list"] = m["p_final"] + 5
-    m["i_stats"] = m["p_final"] + 6
+    lines.append("mount 1 0 lossy")
+    m["reads"] = []
+    for r in s["rounds"]:
+        h = 10 + r["handle"]
+        m["reads"].append(len(lines) + 1)
+        lines += ["open_file 0 %s %d" % (hexs(r["name"]), h), "read_all %d 4000000" % h, "drop_file %d" % h]
+    m["i_list"] = len(lines)
+    m["i_stats"] = len(lines) + 1
+    lines += ["list 0", "stats", "unmount"]
     return lines, m
 
 
@@ -101,8 +148,9 @@ def wr_tokens(results):
     return " ".join(ws)
 
 
-def stream(rep, tier, rng, who):
-    n = 36 if tier == "quick" else 600
+def stream(rep, tier, rng, who, n=None):
+    if n is None:
+        n = 36 if tier == "quick" else 600
     nops = 10 if tier == "quick" else 30
     _, table = namelib.upper_table("default")
     # geometry of every configuration through the model's own format
@@ -134,25 +182,34 @@ def stream(rep, tier, rng, who):
     for si, (s, (lines, m), res) in enumerate(zip(sessions_, built, results)):
         conf = s["conf"]
         mtext.append("fmt %s %d %d" % (conf[2], conf[3], s["acc"])); plan.append((si, "fmt", None))
-        cr = res[m["i_create"]]
-        mtext.append("create %s %d %d %d %d %d %d %d | %s" % ((hexs(s["name"]),) + tuple(s["c0"]) + (wr_tokens(res[m["i_create"] - 1:m["i_create"] + 1]),)))
-        plan.append((si, "create", None))
-        if cr.kind == "ok":
-            for k, (o, ck) in enumerate(zip(s["ops"], s["clocks"])):
-                i = m["ops"][k]
-                mtext.append("step %d %d %d %d %d %d %d %s | %s" % (tuple(ck) + (o, wr_tokens(res[i:i + 2]))))
-                plan.append((si, "step", k))
-            mtext.append("dec"); plan.append((si, "dec_before", None))
-            first = True
-            for i in m["i_end"]:
-                if first:
-                    mtext.append("flush | " + wr_tokens([res[i]])); plan.append((si, "flush", i))
-                    first = False
-                else:
-                    mtext.append("sync m | " + wr_tokens([res[i]])); plan.append((si, "sync", i))
-        else:
-            for i in m["i_end"]:
-                mtext.append("sync m | " + wr_tokens([res[i]])); plan.append((si, "sync", i))
+        if s["b0"]:
+            mtext.append("poke 37 %02x" % s["b0"]); plan.append((si, "poke", None))
+        for ri, (r, mr) in enumerate(zip(s["rounds"], m["rounds"])):
+            ic = mr["i_create"]
+            cr = res[ic]
+            mtext.append("create %s %d %d %d %d %d %d %d | %s" % ((hexs(r["name"]),) + tuple(r["c0"]) + (wr_tokens(res[ic - 1:ic + 1]),)))
+            plan.append((si, "create", ri))
+            if cr.kind == "ok":
+                for k, (o, ck) in enumerate(zip(r["ops"], r["clocks"])):
+                    i = mr["ops"][k]
+                    mtext.append("step %d %d %d %d %d %d %d %s | %s" % (tuple(ck) + (o, wr_tokens(res[i:i + 2]))))
+                    plan.append((si, "step", (ri, k)))
+                mtext.append("dec"); plan.append((si, "dec_before", ri))
+                first = True
+                for i in mr["i_end"]:
+                    if first:
+                        mtext.append("flush | " + wr_tokens([res[i]])); plan.append((si, "flush", (ri, i)))
+                        first = False
+                    else:
+                        mtext.append("sync m | " + wr_tokens([res[i]])); plan.append((si, "sync", (ri, i)))
+            else:
+                for i in mr["i_end"]:
+                    mtext.append("sync m | " + wr_tokens([res[i]])); plan.append((si, "sync", (ri, i)))
+            if mr["i_xdrop"] is not None:
+                mtext.append("sync m | " + wr_tokens([res[mr["i_xdrop"]]])); plan.append((si, "sync", (ri, mr["i_xdrop"])))
+            if mr["i_remove"] is not None:
+                mtext.append("remove %s | %s" % (hexs(r["name"]), wr_tokens([res[mr["i_remove"]]]))); plan.append((si, "remove", ri))
+                mtext.append("dec"); plan.append((si, "dec_after_remove", ri))
         mtext.append("sync x | " + wr_tokens([res[m["i_unmount"]]])); plan.append((si, "unmount", None))
         mtext.append("digest"); plan.append((si, "digest", None))
         fp = res[m["p_final"]]
@@ -160,15 +217,31 @@ def stream(rep, tier, rng, who):
     mout = vlib.model_run("csess", "\n".join(mtext) + "\n")[1:]
     assert len(mout) == len(plan), (len(mout), len(plan))
     # ---- evaluation
-    dist = {"by_volume": {}, "ops": {}, "outcomes": {}, "ends": {}, "acc_on": 0, "create_refused": 0, "steps": 0, "whole_image_compares": 0,
-            "offsets_compared": 0, "flush_wrote_entry": 0, "flush_clean": 0, "deferred_writeback_seen_before_flush": 0,
-            "content_bytes_decoded": 0, "stamps_changed_dirty_only": 0}
+    dist = {"by_volume": {}, "ops": {}, "outcomes": {}, "ends": {}, "rounds": {}, "acc_on": 0, "create_refused": 0, "steps": 0,
+            "whole_image_compares": 0, "offsets_compared": 0, "flush_wrote_entry": 0, "flush_clean": 0,
+            "deferred_writeback_seen_before_flush": 0, "content_bytes_decoded": 0, "stamps_changed_dirty_only": 0,
+            "removes": 0, "removes_with_clusters": 0, "clusters_given_back": 0, "removes_beside_other_files": 0,
+            "remove_refused": 0, "fill_delete_cycles": 0, "mount_status_byte": {}}
     state = {}
+
+    def lfn_hex(name):
+        u16 = name.encode("utf-16-le")
+        return "".join("%02x%02x" % (u16[i + 1], u16[i]) for i in range(0, len(u16), 2))
+
+    def parse_dec(out):
+        head, _, ents = out.partition(" : ")
+        hv = head.split(" ")
+        es = [x.split(",") for x in ents.split(";")] if ents else []
+        return hv, {e[0]: e for e in es if len(e) == 5}, len(es)
+
     for (si, what, arg), out in zip(plan, mout):
         s = sessions_[si]; lines, m = built[si]; res = results[si]; conf = s["conf"]
         label = conf[0]
         bits, cs, total = geo[label]
-        stt = state.setdefault(si, {"bad": False, "content": bytearray(), "pos": 0, "created": False})
+        stt = state.setdefault(si, {"bad": False, "content": bytearray(), "pos": 0, "created": False, "live": {}, "removed": []})
+
+        def ncl(b):
+            return (len(b) + cs - 1) // cs
 
         def viol(text, upto, nofail):
             stt["bad"] = True
@@ -181,7 +254,7 @@ def stream(rep, tier, rng, who):
         if what == "fmt":
             rep.count()
             dist["by_volume"][label] = dist["by_volume"].get(label, 0) + 1
-            dist["ends"][s["end"]] = dist["ends"].get(s["end"], 0) + 1
+            dist["rounds"][len(s["rounds"])] = dist["rounds"].get(len(s["rounds"]), 0) + 1
             dist["acc_on"] += s["acc"]
             pf = res[m["p_format"]]
             lib = cvol_corr.md5s(cvol_corr.pages_of(pf)) if pf.kind == "ok" else None
@@ -189,21 +262,31 @@ def stream(rep, tier, rng, who):
             if t[0] != "ok" or lib is None or cvol_corr.parse_digest(t[5:]) != lib:
                 viol("the formatted device differs from the model's formatted image", m["p_format"], True)
             continue
+        if what == "poke":
+            dist["mount_status_byte"]["%02x" % s["b0"]] = dist["mount_status_byte"].get("%02x" % s["b0"], 0) + 1
+            continue
         if what == "create":
-            cr = res[m["i_create"]]
+            r = s["rounds"][arg]; mr = m["rounds"][arg]
+            dist["ends"][r["end"]] = dist["ends"].get(r["end"], 0) + 1
+            cr = res[mr["i_create"]]
+            stt["content"] = bytearray(); stt["pos"] = 0
             if cr.kind not in ("ok", "err"):
-                viol("create_file %r -> %s %s" % (s["name"], cr.kind, cr.payload[:80]), m["i_create"], False); continue
+                viol("create_file %r -> %s %s" % (r["name"], cr.kind, cr.payload[:80]), mr["i_create"], False); continue
             if (parts[0].split(" ")[0] == "ok") != (cr.kind == "ok"):
-                viol("create_file %r: model '%s', library '%s %s'" % (s["name"], parts[0], cr.kind, cr.payload[:40]), m["i_create"], True); continue
+                viol("create_file %r: model '%s', library '%s %s'" % (r["name"], parts[0], cr.kind, cr.payload[:40]), mr["i_create"], True); continue
             if not parts[2].startswith("same"):
-                viol("device and model image differ after create_file %r: %s" % (s["name"], parts[2][:120]), m["i_create"], True); continue
+                viol("device and model image differ after create_file %r: %s" % (r["name"], parts[2][:120]), mr["i_create"], True); continue
             dist["whole_image_compares"] += 1; dist["offsets_compared"] += int(parts[2].split()[1])
             stt["created"] = cr.kind == "ok"
-            if not stt["created"]:
+            if stt["created"]:
+                stt["live"][r["name"]] = stt["content"]
+            else:
                 dist["create_refused"] += 1
             continue
         if what == "step":
-            k = arg; o = s["ops"][k]; i = m["ops"][k]
+            ri, k = arg
+            r_ = s["rounds"][ri]; mr = m["rounds"][ri]
+            o = r_["ops"][k]; i = mr["ops"][k]
             r = res[i]; rp = res[i + 1]
             t = o.split(" ")
             dist["steps"] += 1
@@ -243,21 +326,23 @@ def stream(rep, tier, rng, who):
             dist["whole_image_compares"] += 1; dist["offsets_compared"] += int(parts[2].split()[1])
             continue
         if what == "dec_before":
-            # the device before the first flush: the statement of C03_session_deferred_writeback
-            head, _, ents = out.partition(" : ")
-            hv = head.split(" ")
-            nlost = (len(stt["content"]) + cs - 1) // cs
-            e = ents.split(";")[0].split(",") if ents else []
-            ok = (len(hv) == 5 and hv[0] == "1" and hv[1] == "0" and int(hv[2]) == nlost and int(hv[4]) == nlost
-                  and int(hv[3]) == total - nlost and len(e) == 5 and e[1] == "0" and e[2] == "0" and e[3] == "x")
+            # the device before the first flush of this round: the statement of C03_session_deferred_writeback (beside the files of
+            # earlier rounds, which are flushed and closed)
+            r_ = s["rounds"][arg]; mr = m["rounds"][arg]
+            hv, ents, nents = parse_dec(out)
+            nlost = ncl(stt["content"])
+            others = sum(ncl(b) for n_, b in stt["live"].items() if n_ != r_["name"])
+            e = ents.get(lfn_hex(r_["name"]))
+            ok = (len(hv) == 5 and int(hv[0]) == len(stt["live"]) and hv[1] == "0" and int(hv[2]) == nlost and int(hv[4]) == nlost
+                  and int(hv[3]) == total - nlost - others and e is not None and e[1] == "0" and e[2] == "0" and e[3] == "x")
             if not ok:
                 viol("before the first flush the device does not decode as C03_session_deferred_writeback states (entry size 0 / no cluster, "
-                     "%d lost clusters, nothing else): %s" % (nlost, out[:120]), m["i_end"][0] - 1, True); continue
+                     "%d lost clusters, nothing else): %s" % (nlost, out[:120]), mr["i_end"][0] - 1, True); continue
             if nlost:
                 dist["deferred_writeback_seen_before_flush"] += 1
             continue
         if what in ("flush", "sync", "unmount"):
-            i = arg if arg is not None else m["i_unmount"]
+            i = arg[1] if arg is not None else m["i_unmount"]
             r = res[i]
             if r.kind != "ok" and (stt["created"] or what == "unmount"):
                 viol("%s -> %s %s" % (lines[i], r.kind, r.payload[:80]), i, False); continue
@@ -274,6 +359,48 @@ def stream(rep, tier, rng, who):
                 if wrote and len(stt["content"]) == 0:
                     dist["stamps_changed_dirty_only"] += 1
             continue
+        if what == "remove":
+            # root_dir().remove(name) of the file just written and closed (Model/VolRemove.v): outcome and WHOLE device
+            r_ = s["rounds"][arg]; mr = m["rounds"][arg]
+            i = mr["i_remove"]; r = res[i]
+            if r.kind not in ("ok", "err"):
+                viol("remove %r -> %s %s" % (r_["name"], r.kind, r.payload[:80]), i, False); continue
+            want = r.kind + ((" " + r.payload.split(" ")[0]) if (r.kind == "err" and r.payload) else "")
+            if parts[0] != want:
+                viol("remove %r: model '%s', library '%s'" % (r_["name"], parts[0][:60], want[:60]), i, True); continue
+            if r_["name"] in stt["live"] and r.kind != "ok":
+                viol("remove of the existing closed file %r -> err %s" % (r_["name"], r.payload[:60]), i, False); continue
+            if len(parts) != 3 or not parts[2].startswith("same"):
+                viol("device and model image differ after remove %r: %s" % (r_["name"], (parts[2] if len(parts) == 3 else out)[:120]), i, True); continue
+            dist["whole_image_compares"] += 1; dist["offsets_compared"] += int(parts[2].split()[1])
+            if r.kind == "ok":
+                b = stt["live"].pop(r_["name"], b"")
+                stt["removed"].append(r_["name"])
+                dist["removes"] += 1
+                if len(b):
+                    dist["removes_with_clusters"] += 1; dist["clusters_given_back"] += ncl(b)
+                if stt["live"]:
+                    dist["removes_beside_other_files"] += 1
+                if arg + 1 < len(s["rounds"]):
+                    dist["fill_delete_cycles"] += 1
+            else:
+                dist["remove_refused"] += 1
+            continue
+        if what == "dec_after_remove":
+            # the C05 clause itself on the DEVICE bytes (independent of the model's image): every cluster of the removed file is free
+            # again, nothing is lost, the other files are all there
+            r_ = s["rounds"][arg]; mr = m["rounds"][arg]
+            hv, ents, nents = parse_dec(out)
+            want_free = total - sum(ncl(b) for b in stt["live"].values())
+            if len(hv) != 5 or int(hv[0]) != len(stt["live"]) or hv[1] != "0" or hv[2] != "0" or int(hv[3]) != want_free:
+                viol("after remove %r the device decodes to %s node(s), %s decode / %s well-formedness issue(s) (%s lost), %s free clusters; "
+                     "expected %d node(s), no issue, %d free (removing a file gives back all of its clusters)"
+                     % (r_["name"], hv[0], hv[1], hv[2], hv[4] if len(hv) > 4 else "?", hv[3] if len(hv) > 3 else "?", len(stt["live"]), want_free),
+                     mr["i_remove"], False)
+                continue
+            if lfn_hex(r_["name"]) in ents and r_["name"] in stt["removed"]:
+                viol("after remove %r the entry is still decoded" % r_["name"], mr["i_remove"], False)
+            continue
         if what == "digest":
             fp = res[m["p_final"]]
             lib = cvol_corr.md5s(cvol_corr.pages_of(fp)) if fp.kind == "ok" else None
@@ -285,60 +412,58 @@ def stream(rep, tier, rng, who):
             continue
         if what == "decp":
             # ---- the property itself on the library's own final dump (independent of the model's image)
-            content = bytes(stt["content"])
-            head, _, ents = out.partition(" : ")
-            hv = head.split(" ")
-            if not stt["created"]:
-                if hv[0] != "0" or hv[2] != "0":
-                    viol("a refused create_file left %s root node(s) / %s issue(s) on the device" % (hv[0], hv[2]), m["p_final"], False)
-                else:
-                    rep.distinct(("session-refused", label, s["name"]))
-                continue
-            e = ents.split(";")[0].split(",") if ents else []
-            ncl = (len(content) + cs - 1) // cs
-            u16 = s["name"].encode("utf-16-le")
-            want_lfn = "".join("%02x%02x" % (u16[i + 1], u16[i]) for i in range(0, len(u16), 2))
-            dec = b"" if len(e) < 5 or e[4] == "-" else bytes.fromhex(e[4])
+            hv, ents, nents = parse_dec(out)
+            live = stt["live"]
             problems = []
-            if hv[0] != "1":
-                problems.append("%s root nodes" % hv[0])
+            if int(hv[0]) != len(live):
+                problems.append("%s root nodes, %d files were created and not removed" % (hv[0], len(live)))
             if hv[1] != "0" or hv[2] != "0":
                 problems.append("%s decode / %s well-formedness issue(s), %s lost cluster(s)" % (hv[1], hv[2], hv[4]))
-            if len(e) == 5:
+            for name, content in live.items():
+                content = bytes(content)
+                e = ents.get(lfn_hex(name))
+                if e is None:
+                    problems.append("no entry decoded for %r" % name); continue
+                dec = b"" if e[4] == "-" else bytes.fromhex(e[4])
                 if int(e[1]) != len(content):
                     problems.append("size field %s, the session observed %d bytes" % (e[1], len(content)))
                 if dec != content:
                     problems.append("decoded content (%d bytes) is not the byte array the session observed (%d bytes)" % (len(dec), len(content)))
                 if (e[2] == "0") != (len(content) == 0):
                     problems.append("first cluster %s for %d bytes" % (e[2], len(content)))
-                if e[3] != ("x" if ncl == 0 else str(ncl)):
+                if e[3] != ("x" if ncl(content) == 0 else str(ncl(content))):
                     problems.append("chain of %s clusters for %d bytes" % (e[3], len(content)))
-                if want_lfn is not None and e[0] != want_lfn:
-                    problems.append("long name %s" % e[0][:40])
-            else:
-                problems.append("no entry decoded")
-            if int(hv[3]) != total - ncl:
-                problems.append("%s free clusters, expected %d" % (hv[3], total - ncl))
-            ra = res[m["i_read"]]
-            back = b"" if ra.payload in ("", "-") else bytes.fromhex(ra.payload)
-            if not ra.ok or back != content:
-                problems.append("after remount the library reads %d bytes back" % len(back))
+            want_free = total - sum(ncl(b) for b in live.values())
+            if int(hv[3]) != want_free:
+                problems.append("%s free clusters, expected %d" % (hv[3], want_free))
+            for r_, ir in zip(s["rounds"], m["reads"]):
+                ra = res[ir]
+                if r_["name"] in live:
+                    back = b"" if ra.payload in ("", "-") else bytes.fromhex(ra.payload)
+                    if not ra.ok or back != bytes(live[r_["name"]]):
+                        problems.append("after remount the library reads %d bytes back from %r" % (len(back), r_["name"]))
+                elif res[ir - 1].kind == "ok":
+                    problems.append("after remount %r (removed / never created) can be opened" % r_["name"])
             stl = res[m["i_stats"]]
-            if stl.ok and int(stl.payload.split(" ")[2]) != total - ncl:
+            if stl.ok and int(stl.payload.split(" ")[2]) != want_free:
                 problems.append("stats reports %s free clusters after remount" % stl.payload.split(" ")[2])
             if problems:
-                viol("after %s and unmount the independent decoder / a second mount do not see the session's file: %s"
-                     % (s["end"], "; ".join(problems)), m["i_stats"], False)
+                viol("after the session and unmount the independent decoder / a second mount do not see the session's files: %s"
+                     % "; ".join(problems), m["i_stats"], False)
                 continue
-            dist["content_bytes_decoded"] += len(content)
-            rep.distinct(("session", label, s["name"], s["acc"], tuple(s["ops"]), s["end"]))
+            dist["content_bytes_decoded"] += sum(len(b) for b in live.values())
+            rep.distinct(("session", label, s["acc"], tuple((r_["name"], tuple(r_["ops"]), r_["end"], r_["remove"]) for r_ in s["rounds"])))
     rep.cov["session_corr_sessions"] = len(sessions_)
     rep.cov["session_corr_distribution"] = dist
-    rep.cov["session_corr_rule"] = ("one file per freshly formatted FAT12/16 volume (%d configurations, device fill bytes 0x00/0xD1/0xE5/0xFF, with and "
-                                    "without label, 1-2 FAT copies); create_file under a scripted clock; 0-%d write/read/seek/truncate calls each under "
-                                    "its own clock value; flush / drop / both; WHOLE device vs model image after create, every call, flush, unmount; "
-                                    "Spec/Abs + Spec/Wf on the library's final dump vs the observed byte array; remount read-back" % (len(CONFS), nops))
+    rep.cov["session_corr_rule"] = ("1-3 files per freshly formatted FAT12/16 volume (%d configurations, device fill bytes 0x00/0xD1/0xE5/0xFF, with and "
+                                    "without label, 1-2 FAT copies); per file: create_file under a scripted clock; 0-%d write/read/seek/truncate calls "
+                                    "each under its own clock value; flush / drop / both; then in 3 of 5 cases drop + remove(name) (fill / delete "
+                                    "cycles, removes beside other files); mounted with status byte 0 / 1 / 2 / 3 / 4 / 0x84 / 0xFC / 0xFF; WHOLE device (status byte "
+                                    "included, unmasked) vs model image after create, every call, flush, remove, "
+                                    "unmount; Spec/Abs + Spec/Wf on the device after every remove and on the library's final dump vs the observed "
+                                    "byte arrays; remount read-back" % (len(CONFS), nops))
     if sessions_:
         s0 = sessions_[0]
-        rep.sample({"session": {"volume": s0["conf"][0], "name": s0["name"], "update_accessed_date": s0["acc"],
-                                "ops": [o[:50] for o in s0["ops"][:8]], "end": s0["end"]}})
+        rep.sample({"session": {"volume": s0["conf"][0], "update_accessed_date": s0["acc"],
+                                "rounds": [{"name": r_["name"], "ops": [o[:50] for o in r_["ops"][:6]], "end": r_["end"], "remove": r_["remove"]}
+                                           for r_ in s0["rounds"]]}})
